@@ -185,7 +185,9 @@ DoEth ==
 DoCosmos ==
   /\ Ev.ev = "Cosmos"
   /\ LET res == CosmosStep(S, Ev.t, Ev.o)
-         bad == IF res.class \in {"dropped", "ante", "msgfail", "blockgas"} /\ Ev.r.code = 0 THEN <<"Cosmos", "failed-but-code-0">>
+         bad == IF res.class = "ante" /\ Ev.r.code = 0 /\ ~(S.maxGas > 0 /\ S.blockGas >= S.maxGas) /\ Ev.t.gas > 0 /\ CosmosEffPrice(S, Ev.t) < Floor(S)
+                  THEN <<"Admit", "cosmos-tx-below-the-price-floor-executed">>       \* C09: the floor binds the Cosmos lane too
+                ELSE IF res.class \in {"dropped", "ante", "msgfail", "blockgas"} /\ Ev.r.code = 0 THEN <<"Cosmos", "failed-but-code-0">>
                 ELSE IF res.class = "ok" /\ Ev.r.code # 0 THEN <<"Cosmos", "ok-but-code-nonzero">>
                 ELSE OK
      IN /\ Settle(bad, res.S)
